@@ -164,6 +164,8 @@ def _regen_nolock(snap):
                          ('intc.py', [snap, os.path.join(COQ, 'Gen/IntProgs.v')]),
                          ('intc_rec.py', [snap, os.path.join(COQ, 'Gen/IntRecProgs.v')]),
                          ('hashc.py', [snap, os.path.join(COQ, 'Gen/HashProgs.v')]),
+                         ('crcc.py', [snap, os.path.join(COQ, 'Gen/CrcProgs.v')]),
+                         ('varintc.py', [snap, os.path.join(COQ, 'Gen/VarintProgs.v')]),
                          ):
         p = os.path.join(gen, script)
         if not os.path.exists(p):
